@@ -15,6 +15,7 @@ func RaceErrors() int { return 0 }
 
 func RaceAcquire(p unsafe.Pointer) {}
 func RaceRelease(p unsafe.Pointer) {}
+func RaceReleaseMerge(p unsafe.Pointer) {}
 
 func RaceWriteRange(p unsafe.Pointer, n int) {}
 func RaceReadRange(p unsafe.Pointer, n int)  {}
